@@ -366,6 +366,9 @@ func check(prop, tier string) int {
 		ncpu = v
 	}
 	slice := 45.0
+	if race {
+		slice = 150 // race mode runs ~150 executions/s; the NB2 scenarios of the "dispatching" base need ~80 s
+	}
 	if tier == "thorough" {
 		slice = 600
 	}
